@@ -744,7 +744,17 @@ fn gen_byz(seed: u64, prop: &str) -> Plan {
         add(&mut b.plan, at, Action::User(UserOp::SetScripts { cmd: SetCmd::All, scripts }));
     }
     let mut main_branch = 0usize;
-    if prop == "C01" && b.rng.chance(1, 2) {
+    if prop == "C01" && b.rng.chance(1, 3) {
+        // a side branch of the same length (and total difficulty) that nobody follows
+        let back = b.rng.range(1, 6);
+        let at = b.rng.range(500, until.max(600));
+        add(&mut b.plan, at, Action::SideFork { src: 0, back, n: back });
+        // make mutation 12 (answer from that branch) likely
+        for p in 0..n_dev {
+            b.plan.peers[p].mutations.push(MutSpec { kind: 1, ordinal: b.rng.below(12), op: 12, seed: b.rng.next_u64() });
+            b.plan.peers[p].mutations.push(MutSpec { kind: 1, ordinal: b.rng.below(12), op: 12, seed: b.rng.next_u64() });
+        }
+    } else if prop == "C01" && b.rng.chance(1, 2) {
         // a shallow reorg, so that proofs with a reorg section are asked for and mutated
         let back = b.rng.range(1, b.plan.knobs.last_n.min(8).max(1));
         let n = back + b.rng.range(1, 4);
